@@ -665,22 +665,34 @@ std::vector<float> MatrixCreator::solve(float tolerance, int maxIterations) {
   check();
   normalize();
   finalize();
-  Eigen::SparseMatrix<float> mat(matSize(), matSize());
-  mat.setFromTriplets(mat_.begin(), mat_.end());
-  Eigen::Map<Eigen::Matrix<float, -1, 1> > rhs(rhs_.data(), rhs_.size());
-  Eigen::Map<Eigen::Matrix<float, -1, 1> > initial(initial_.data(),
-                                                   initial_.size());
-  Eigen::ConjugateGradient<Eigen::SparseMatrix<float>,
+  // Solve in double precision. The entries are single-precision numbers, but
+  // the penalty of a cell that is far from its target (strength / distance) can
+  // be more than 2^24 times smaller than the weight of its nets: summed in
+  // single precision on the diagonal it disappears, and without a fixed pin
+  // the system becomes singular (the solver then returns NaN)
+  std::vector<Eigen::Triplet<double> > triplets;
+  triplets.reserve(mat_.size());
+  for (const auto &t : mat_) {
+    triplets.emplace_back(t.row(), t.col(), static_cast<double>(t.value()));
+  }
+  Eigen::SparseMatrix<double> mat(matSize(), matSize());
+  mat.setFromTriplets(triplets.begin(), triplets.end());
+  Eigen::VectorXd rhs =
+      Eigen::Map<Eigen::VectorXf>(rhs_.data(), rhs_.size()).cast<double>();
+  Eigen::VectorXd initial =
+      Eigen::Map<Eigen::VectorXf>(initial_.data(), initial_.size())
+          .cast<double>();
+  Eigen::ConjugateGradient<Eigen::SparseMatrix<double>,
                            Eigen::Lower | Eigen::Upper>
       solver;
   solver.compute(mat);
   solver.setTolerance(tolerance);
   solver.setMaxIterations(maxIterations);
-  Eigen::Matrix<float, -1, 1> res = solver.solveWithGuess(rhs, initial);
+  Eigen::VectorXd res = solver.solveWithGuess(rhs, initial);
   // Copy to a std::vector and remove the fake cells
   std::vector<float> ret;
   ret.resize(matSize());
-  Eigen::Matrix<float, -1, 1>::Map(ret.data(), ret.size()) = res;
+  Eigen::VectorXf::Map(ret.data(), ret.size()) = res.cast<float>();
   ret.resize(nbCells_);
   return ret;
 }
